@@ -347,7 +347,9 @@ void cmi_hashheap_clear(struct cmi_hashheap *hp)
         const size_t heapbts = (hp->heap_size + 2u) * sizeof(struct cmi_heap_tag);
         const size_t hashbts = (hp->heap_size * 2u) * sizeof(struct cmi_hash_tag);
         const size_t initsz = heapbts + hashbts;
-        cmi_memset(hp->heap, 0u, initsz);
+        /* Slot 0 holds the most recently dequeued item, not a queued one, keep it */
+        const size_t slot0 = sizeof(struct cmi_heap_tag);
+        cmi_memset(&(hp->heap[1]), 0u, initsz - slot0);
         hp->heap_count = 0u;
     }
 }
